@@ -593,6 +593,21 @@ def normalised_body(f: FuncInfo) -> str:
                 return n
             return self.generic_visit(n)
     node = T().visit(node)
+    # bound names are not part of what the function does: parameters, locals and comprehension variables are numbered in order of
+    # first appearance (two copies that differ only in the spelling of a variable are the same function)
+    a = node.args
+    names = {}
+    for prm in a.posonlyargs + a.args + a.kwonlyargs + ([a.vararg] if a.vararg else []) + ([a.kwarg] if a.kwarg else []):
+        if prm.arg not in ("self", "cls"):
+            names.setdefault(prm.arg, f"_v{len(names)}")
+    bound = {x.id for x in ast.walk(node) if isinstance(x, ast.Name) and isinstance(x.ctx, ast.Store)}
+    for x in sorted((y for y in ast.walk(node) if isinstance(y, ast.Name) and y.id in bound), key=lambda y: (y.lineno, y.col_offset)):
+        names.setdefault(x.id, f"_v{len(names)}")
+    for x in ast.walk(node):
+        if isinstance(x, ast.Name) and x.id in names:
+            x.id = names[x.id]
+        elif isinstance(x, ast.arg) and x.arg in names:
+            x.arg = names[x.arg]
     body = node.body or [ast.Pass()]
     return "\n".join(ast.unparse(s) for s in body)
 
@@ -1088,9 +1103,11 @@ def candidate_appends(ctx, ce: FuncInfo) -> List[Tuple[FuncInfo, ast.Call, List[
     """(owner, append call, guards) for every ``eligible.append(..)`` of candidate collection, including the ones in a nested
     helper of it (guards of a helper's append: its own plus the ones at the helper's call sites that all of them share)."""
     out = []
+    from sa.util import returned_name
+    lst = returned_name(ce, "eligible")
     for owner in [ce] + list(ce.nested.values()):
         for x in own_nodes(owner.node):
-            if isinstance(x, ast.Call) and isinstance(x.func, ast.Attribute) and x.func.attr == "append" and dotted(x.func.value) == "eligible" and x.args:
+            if isinstance(x, ast.Call) and isinstance(x.func, ast.Attribute) and x.func.attr == "append" and dotted(x.func.value) == lst and x.args:
                 raw = list(guards_at(owner, x))
                 if owner is not ce:
                     sites = [y for y in own_nodes(ce.node) if isinstance(y, ast.Call) and isinstance(y.func, ast.Name) and y.func.id == owner.name]
@@ -1139,8 +1156,15 @@ def eligible_bucket_rules(ctx, rid: str, which: str) -> None:
         need = {"after": [("==", *sorted(["event.type", f"{item}.event"]), True), ("truthy", "isinstance(event, AfterEvent)", "", True)],
                 "invoke": [("==", *sorted(["event.type", f"{item}.event"]), True), ("truthy", "isinstance(event, DoneEvent)", "", True)],
                 "ondone": [("==", *sorted(["event.type", f"{item}.event"]), True)],
-                "always": [("truthy", "is_transient_check", "", True)]}.get(bucket, [])
+                "always": []}.get(bucket, [])
         missing = [t for t in need if t not in atoms]
+        if bucket == "always":
+            # eventless transitions only when the event is not one of the engine's own done./error./after. events - under whatever
+            # name that test was given
+            def _is_transient_test(t):
+                return t[0] == "truthy" and "startswith" in t[1] and all(k in t[1] for k in ("done.", "error.", "after.")) and t[3] is False
+            if not any(_is_transient_test(t) for t in atoms):
+                missing.append(("truthy", "<event>.type.startswith(('done.', 'error.', 'after.'))", "", False))
         if bucket == "invoke":
             src_ok = any(t[0] == "==" and t[3] is True and "event.src" in (t[1], t[2]) and any(z.endswith(".id") for z in (t[1], t[2])) for t in atoms)
             if not src_ok:
